@@ -47,11 +47,25 @@ impl Write for FaultSink {
 }
 
 fn compile_to<W: Write>(matrix: &[u8], csv: &[u8], w: &mut W) -> Result<(), String> {
+    compile_seq(matrix, csv, w, 0)
+}
+
+/// seq 0: the documented sequence; 1: the error of resolve() is ignored and compile() is called anyway;
+/// 2: compile() without resolve(). Every sequence must end in Ok or Err, never in a panic.
+fn compile_seq<W: Write>(matrix: &[u8], csv: &[u8], w: &mut W, seq: u8) -> Result<(), String> {
     let mut b = DictBuilder::new_system();
     b.set_compile_time(std::time::UNIX_EPOCH + std::time::Duration::from_secs(env::FIXED_TIME_SECS));
     b.read_conn(matrix).map_err(|e| format!("conn: {:?}", e))?;
     b.read_lexicon(csv).map_err(|e| format!("lexicon: {:?}", e))?;
-    b.resolve().map_err(|e| format!("resolve: {:?}", e))?;
+    match seq {
+        0 => {
+            b.resolve().map_err(|e| format!("resolve: {:?}", e))?;
+        }
+        1 => {
+            let _ = b.resolve();
+        }
+        _ => {}
+    }
     b.compile(w).map_err(|e| format!("compile: {:?}", e))
 }
 
@@ -60,6 +74,8 @@ enum Expect {
     Either,
     /// the mutation makes the input invalid in a way the statement names
     MustReject(&'static str),
+    /// the input is valid (boundary value inside the limits): rejecting it would be a wrong error
+    MustAccept(&'static str),
 }
 
 struct Mutated {
@@ -115,6 +131,13 @@ fn mutate(rng: &mut Rng, m: &Matrix, lex: &Lexicon) -> Mutated {
             let v = rng.s(&["", "x", "1e3", " 5", "+5", "99999", "-99999", "32768", "-32769", "0x10", "１"]).to_string();
             what = format!("row {}: numeric field {} = {:?}", r, f, v);
             rows[r][f] = v;
+        }
+        5 if rng.chance(1, 3) => {
+            // the largest valid ids (left id indexes the second dimension, right id the first)
+            rows[r][1] = (m.nr as i64 - 1).to_string();
+            rows[r][2] = (m.nl as i64 - 1).to_string();
+            what = format!("row {}: left id {} / right id {} with a {}x{} matrix (largest valid ids)", r, rows[r][1], rows[r][2], m.nl, m.nr);
+            expect = Expect::MustAccept("connection ids are the largest valid ones");
         }
         5 => {
             // connection id at / beyond the matrix size (left id indexes the second dimension)
@@ -329,12 +352,12 @@ fn mutate(rng: &mut Rng, m: &Matrix, lex: &Lexicon) -> Mutated {
 }
 
 /// Loads an accepted dictionary and analyses texts made of its keys
-fn arbiter(res: &ResDir, bytes: &[u8], keys: &[String], splits_touched: bool, rep: &mut Report) -> Result<(), (String, String, String)> {
+fn arbiter(res: &ResDir, bytes: &[u8], users: &[Vec<u8>], keys: &[String], splits_touched: bool, rep: &mut Report) -> Result<(), (String, String, String)> {
     let cfg_json = json!({"characterDefinitionFile": "char.def",
         "oovProviderPlugin": [env::simple_oov_allow(&pos(["補助記号", "一般", "*", "*", "*", "*"]), 0, 0, 20000)]});
     let cfg = env::config(&cfg_json, res);
     let before = sudachi::verif::counters();
-    let dict = match guard(|| env::load(&cfg, bytes, &[], Place::Owned)) {
+    let dict = match guard(|| env::load(&cfg, bytes, users, Place::Owned)) {
         Ok(Ok(d)) => d,
         Ok(Err(e)) => return Err(("emitted_dictionary_does_not_load".into(), "from_cfg_storage".into(), clip(&format!("{:?}", e), 200))),
         Err(p) => return Err(("emitted_dictionary_does_not_load".into(), p.site, p.msg)),
@@ -382,8 +405,23 @@ fn run_case(mu: &Mutated, keys: &[String], res: &ResDir, rep: &mut Report, scen:
             rep.violation("compile_panic", &p.site, &format!("{}: {}", mu.what, p.msg), mu.probe, scen());
             false
         }
-        Ok(Err(_)) => {
+        Ok(Err(e)) => {
             rep.count("inputs_rejected_with_error", 1);
+            if let Expect::MustAccept(why) = &mu.expect {
+                rep.violation("valid_input_rejected", "DictBuilder::compile", &format!("{} ({}) but compilation fails: {}", mu.what, why, clip(&e, 200)), mu.probe, scen());
+                return false;
+            }
+            // other call sequences on the same rejected input must also end in an error value
+            for seq in [1u8, 2] {
+                let mut sink = Vec::new();
+                match guard(|| compile_seq(&mu.matrix, &mu.csv, &mut sink, seq)) {
+                    Err(p) => {
+                        rep.violation("compile_panic", &p.site, &format!("{} with call sequence {} ({}): {}", mu.what, seq, if seq == 1 { "error of resolve() ignored, then compile()" } else { "compile() without resolve()" }, p.msg), mu.probe, scen());
+                        return false;
+                    }
+                    Ok(_) => rep.count("alternative_call_sequences", 1),
+                }
+            }
             true
         }
         Ok(Ok(())) => {
@@ -392,7 +430,7 @@ fn run_case(mu: &Mutated, keys: &[String], res: &ResDir, rep: &mut Report, scen:
                 rep.violation("invalid_input_accepted", "DictBuilder::compile", &format!("{} ({}) but compilation reports success", mu.what, why), mu.probe, scen());
                 return false;
             }
-            match arbiter(res, &out, keys, mu.splits_touched, rep) {
+            match arbiter(res, &out, &[], keys, mu.splits_touched, rep) {
                 Ok(()) => true,
                 Err((kind, site, msg)) => {
                     rep.violation(&kind, &site, &format!("{}: {}", mu.what, msg), mu.probe, scen());
@@ -455,6 +493,11 @@ pub fn run(ctx: &Ctx, rep: &mut Report) {
             rep.count("mutated_inputs", 1);
         }
 
+        // (a') user dictionaries compiled over this system dictionary (as the CLI does)
+        if wi % 2 == 1 {
+            user_part(&mut rng, wi, &matrix, &lex, &csv, &mtext, &res, rep);
+        }
+
         // (b) sink faults: every offset for small dictionaries, sampled for larger ones
         if wi % 4 == 0 {
             let mut full = Vec::new();
@@ -491,6 +534,81 @@ pub fn run(ctx: &Ctx, rep: &mut Report) {
     }
     if ctx.shard == 0 && ctx.only.is_none() {
         probes(&res, rep);
+    }
+}
+
+fn user_part(rng: &mut Rng, wi: u64, matrix: &Matrix, sys: &Lexicon, sys_csv: &str, mtext: &str, res: &ResDir, rep: &mut Report) {
+    let pool = dictgen::pos_pool();
+    let sys_bytes = match env::compile_system(sys_csv.as_bytes(), mtext.as_bytes()) {
+        Ok(b) => b,
+        Err(_) => return,
+    };
+    let plain_cfg = env::config(&env::minimal_cfg(&pool[0]), res);
+    let plain = match guard(|| env::load(&plain_cfg, &sys_bytes, &[], Place::Owned)) {
+        Ok(Ok(d)) => d,
+        _ => return,
+    };
+    let dopts = DictOpts { max_entries: 8, ..DictOpts::default() };
+    let user = dictgen::gen_user(rng, &dopts, matrix, sys, 0);
+    for case in 0..6 {
+        let mut rows: Vec<Vec<String>> = user.entries.iter().map(|e| user.row_fields(e, Some(sys))).collect();
+        let r = rng.below(rows.len());
+        let (what, expect): (String, Expect) = match case {
+            0 => ("unmodified user dictionary".to_string(), Expect::MustAccept("generated valid")),
+            1 => {
+                rows[r][1] = (matrix.nr as i64 - 1).to_string();
+                rows[r][2] = (matrix.nl as i64 - 1).to_string();
+                (format!("user row {}: largest valid ids {} / {} for a {}x{} matrix", r, rows[r][1], rows[r][2], matrix.nl, matrix.nr), Expect::MustAccept("largest valid connection ids"))
+            }
+            2 => {
+                rows[r][1] = (matrix.nr as i64 + rng.below(2) as i64).to_string();
+                (format!("user row {}: left id {} for a {}x{} matrix", r, rows[r][1], matrix.nl, matrix.nr), Expect::MustReject("left id outside the matrix"))
+            }
+            3 => {
+                rows[r][2] = (matrix.nl as i64 + rng.below(2) as i64).to_string();
+                (format!("user row {}: right id {} for a {}x{} matrix", r, rows[r][2], matrix.nl, matrix.nr), Expect::MustReject("right id outside the matrix"))
+            }
+            4 => {
+                let f = *rng.pick(&[15usize, 16, 17]);
+                rows[r][f] = format!("U{}", rows.len() + rng.below(3));
+                rows[r][14] = "C".into();
+                (format!("user row {}: reference field {} = {}", r, f, rows[r][f]), Expect::MustReject("dangling reference into the user dictionary"))
+            }
+            _ => {
+                let f = *rng.pick(&[15usize, 16, 17]);
+                rows[r][f] = format!("{}", sys.entries.len() + rng.below(3));
+                rows[r][14] = "C".into();
+                (format!("user row {}: reference field {} = {} (system dictionary has {} rows)", r, f, rows[r][f], sys.entries.len()), Expect::MustReject("dangling reference into the system dictionary"))
+            }
+        };
+        let mut csv = String::new();
+        for row in &rows {
+            csv.push_str(&join_csv(row));
+            csv.push('\n');
+        }
+        rep.eval();
+        rep.count("user_dictionary_inputs", 1);
+        let scen = || json!({"world_index": wi, "user_case": what, "matrix": mtext, "system_csv": clip(sys_csv, 3000), "user_csv": csv});
+        match guard(|| env::compile_user(&plain, csv.as_bytes())) {
+            Err(p) => rep.violation("compile_panic", &p.site, &format!("{}: {}", what, p.msg), "", scen()),
+            Ok(Err(e)) => {
+                if let Expect::MustAccept(why) = &expect {
+                    rep.violation("valid_input_rejected", "DictBuilder::compile(user)", &format!("{} ({}) but compilation fails: {}", what, why, clip(&format!("{:?}", e), 200)), "", scen());
+                }
+            }
+            Ok(Ok(ub)) => {
+                if let Expect::MustReject(why) = &expect {
+                    rep.violation("invalid_input_accepted", "DictBuilder::compile(user)", &format!("{} ({}) but compilation reports success", what, why), "", scen());
+                    continue;
+                }
+                let keys: Vec<String> = user.entries.iter().map(|e| e.key.clone()).collect();
+                if let Err((kind, site, msg)) = arbiter(res, &sys_bytes, &[ub], &keys, false, rep) {
+                    rep.violation(&kind, &site, &format!("{}: {}", what, msg), "", scen());
+                } else {
+                    rep.nontrivial(fnv(format!("user|{}|{}", wi, case).as_bytes()));
+                }
+            }
+        }
     }
 }
 
